@@ -9,7 +9,7 @@ wt=/tmp/wtc-confirm$S
 export CARGO_NET_OFFLINE=true CARGO_TARGET_DIR=/tmp/wtc-confirm$S-target
 if [ ! -d $wt ]; then git -C /repo worktree add -q --detach $wt HEAD || exit 9; fi
 git -C $wt checkout -q --detach $(git -C /repo rev-parse HEAD) && git -C $wt checkout -q -- . || exit 9
-demo=$(ls $src/demo.* | head -1)
+demo=$(ls $src/demo.py $src/demo.sh 2>/dev/null | head -1)
 run_demo() { case $demo in *.py) timeout 600 python3 $demo "$1";; *) timeout 600 bash $demo "$1";; esac; }
 (cd $wt && cargo build --offline 2>&1 | tail -1)
 cp $CARGO_TARGET_DIR/debug/cicada /tmp/wtc-cicada-base$S
